@@ -169,6 +169,17 @@ theorem bfs_layout (b : TrieCodec.Builder) (hb : b.WF) (recs : List Rec) (data :
 /-- inside the format's limits `write` does not fail -/
 theorem writes_within_limits (b : TrieCodec.Builder) (hf : b.Fits) : b.write.isSome = true := write_isSome b hf
 
+/-- **validate_write**: the structural check `Trie::new` performs on the decoded index since the repair of C12's
+    findings F16 / F17 (`validate_index`: child ranges after their node and in ascending order, inside the index, no
+    leaf record but at the first position of a child range, leaf data inside the phrase bytes) accepts the index of
+    EVERY file `TrieBuilder::write` produces — the scan runs along the order in which the BFS emits the records and
+    its `next` is the writer's `child_begin` (`writeLoop_scan`).  So `openTrie` (which ends with that check) still
+    opens every written file: `read_write` and `C11` keep their statements. -/
+theorem validate_write (b : TrieCodec.Builder) (hb : b.WF) (recs : List Rec) (data : Bytes)
+    (h : b.buffers = some (recs, data)) (hr : recs.length < 4294967296) (hd : data.length < 4294967296) :
+    TrieValidate.validate recs data.length = true ∧ validIndex (recs.flatMap recBytes) data = true :=
+  ⟨validate_buffers b hb recs data h hr hd, validIndex_write b hb recs data h hr hd⟩
+
 /-- the real reader on a written file: metadata, and every lookup is the walk on the builder tree -/
 theorem read_write (b : TrieCodec.Builder) (hb : b.WF) (hi : ValidInfo b.info) (bytes : Bytes) (hw : b.write = some bytes) :
     ∃ t, openTrie bytes = some t ∧ about t = b.info ∧
@@ -540,6 +551,11 @@ example : (sampleTwoLeaves.map fun t => (lookupFirstN t [10240] 3 .fuzzyPartialP
     some [[25830], [25831], [28204]] := by decide
 example : (sampleTwoLeaves.map fun t => (collectN t.index t.data 3
     ((walk t.index .fuzzyPartialPrefix [10240] [viewAt t.index 0]).getD []) []).length) = some 4 := by decide
+
+-- the validation is not vacuous: the sample file with ONE index byte overwritten (the child-begin field of the root,
+-- 1 -> 0: the root becomes its own child, C12's finding F16) decodes as DER but is rejected by `openTrie`
+example : ((TrieCodec.Builder.ofEntries {} sampleEntries).write.map fun bytes =>
+    (bytes[28]?, openTrie (bytes.set 28 0), (openTrie bytes).isSome)) = some (some 1, none, true) := by decide
 
 -- enumeration: three (key, phrase) pairs (the iterator pops each round's results: deepest first)
 example : (sampleTrie.map fun t => (entries t).map fun es => es.map (·.1)) =
